@@ -3,7 +3,7 @@ from ._util import H, KGroup, pick
 
 
 def plan(tier, seed):
-    n = 4 if tier == "quick" else 6
+    n = 4 if tier == "quick" else 5
     seam1 = [H("pf::p1_%s_%s_%d" % (f, m, n), "seam 1: text -> (mantissa, exponent, sign) through the public API (numeric back end stubbed to expose the decomposition)", "arbitrary bytes len<=%d" % n)
              for f, m in (("f64", "partial"), ("f32", "complete"))]
     seam24 = [H("c01::fast_path_f64", "seam 2: is_fast_path/try_fast_path only admit exactly representable operands; power tables equal 10^e", "all Number{mantissa: u64, exponent: i64}"),
@@ -28,20 +28,22 @@ def plan(tier, seed):
                "lemire_exact_f64@q=308,k=63", "lemire_exact_f64@q=308,k=61", "lemire_exact_f32@q=38,k=63", "lemire_exact_f32@q=38,k=62", "lemire_exact_f64@q=-342,k=63", "lemire_exact_f32@q=-65,k=63"]
     else:
         for q in range(0, 28):
-            for k in (0, 1, 2, 3, 5, 8, 11, 20, 30, 40, 50, 63):
+            for k in (0, 3, 11, 40, 63):
                 ks.append("lemire_exact_f64@q=%d,k=%d" % (q, k))
         for q in range(0, 19):
-            for k in (0, 5, 40):
+            for k in (0, 40):
                 ks.append("lemire_exact_f32@q=%d,k=%d" % (q, k))
-        for q in list(range(-342, 0, 7)) + list(range(28, 309, 7)):
+        for q in list(range(-342, 0, 19)) + list(range(28, 309, 19)) + [308]:
             ks.append("lemire_exact_f64@q=%d,k=0,bits=12" % q)
-        for q in list(range(-65, 0, 3)) + list(range(19, 39, 2)):
+        for q in list(range(-65, 0, 8)) + list(range(19, 39, 5)) + [38]:
             ks.append("lemire_exact_f32@q=%d,k=0,bits=12" % q)
+        ks += ["lemire_exact_f64@q=308,k=63", "lemire_exact_f64@q=308,k=61", "lemire_exact_f32@q=38,k=63", "lemire_exact_f32@q=38,k=62", "lemire_exact_f64@q=-342,k=63", "lemire_exact_f32@q=-65,k=63"]
     return {
         "kani": groups,
-        "smt": {"features": (), "kernels": ks, "workers": 8},
+        "smt": {"features": (), "kernels": ks + ["max_digits_f64", "max_digits_f32"], "workers": 8},
         "functions_encoded": ["lexical_parse_float::parse::parse_number (Kani, via API)", "Number::{is_fast_path,try_fast_path}, float::{pow_fast_path,int_pow_fast_path} (Kani)",
-                              "lexical_parse_float::lemire::compute_float::<f32|f64> (MIR -> SMT, exact integer oracle)", "float::extended_to_float (Kani)"],
+                              "lexical_parse_float::lemire::compute_float::<f32|f64> (MIR -> SMT, exact integer oracle)", "float::extended_to_float (Kani)",
+                              "limits::{f32_max_digits,f64_max_digits} (MIR -> SMT: slow-path digit cap >= exact maximum digits of a halfway point)"],
         "bounds": ["seam 1: arbitrary bytes up to the stated length", "seam 2/4: all inputs",
                    "seam 3: table rows q in [0,27] (exact powers): every 64-bit w with the stated leading-zero count; other rows: every w with <= 12 significant bits; rows and leading-zero counts sampled in quick, swept in thorough"],
         "outside_claim": ["full-width mantissas on rows outside [0,27] (near-halfway 17-19 digit inputs)", "big-integer slow path (slow::digit_comp, bigint)", "Bellerophon (compact / radix builds)",
